@@ -62,11 +62,29 @@ def gen_box(rng, N, kind=None):
         lo = [h - float(s) for h, s in zip(hi, 10 ** rng.uniform(-2, 3, N))]
     elif kind == "mixed":
         lo = fl(rng.uniform(-1e3, 1e3, N))
-        hi = [l + float(s) for l, s in zip(lo, 10 ** rng.uniform(-3, 3, N))]
+        sides = 10 ** rng.uniform(-3, 3, N)
+        if N > 1 and rng.random() < 0.2:
+            # very unequal sides: one axis 1e8..1e13 times longer than the others (seconds against nanometres)
+            sides[int(rng.integers(N))] *= 10 ** rng.uniform(8, 13)
+        hi = [l + float(s) for l, s in zip(lo, sides)]
     else:
         lo = fl(rng.uniform(-100, 100, N))
         hi = [l + float(s) for l, s in zip(lo, 10 ** rng.uniform(-1, 2, N))]
     return lo, hi, kind
+
+
+def nearby_box(rng, lo, hi):
+    """A genuinely different box next to (lo, hi): every bound moved by 1e-9..1e-2 of its side (a user zooming in or correcting a bound
+    slightly).  Returns (lo, hi, "nearby")."""
+    lo_a, hi_a = np.array(lo, dtype=float), np.array(hi, dtype=float)
+    side = hi_a - lo_a
+    n = len(lo_a)
+    nlo = lo_a + side * 10 ** rng.uniform(-9, -2, n) * rng.choice([-1.0, 1.0], n)
+    nhi = hi_a + side * 10 ** rng.uniform(-9, -2, n) * rng.choice([-1.0, 1.0], n)
+    if not np.all(nlo < nhi) or (np.array_equal(nlo, lo_a) and np.array_equal(nhi, hi_a)):
+        nhi = hi_a + side * 0.01
+        nlo = lo_a.copy()
+    return fl(nlo), fl(nhi), "nearby"
 
 
 # --------------------------------------------------------------------------- objectives
